@@ -237,3 +237,14 @@ Proof.
   destruct (rebuild_naddrs _ _) as [tb2| | |]; cbn [bind]; try discriminate.
   intros [= <-]. apply rebuild_events_end in E1. exact E1.
 Qed.
+
+(* ---------- Addr::try_from_bytes is total ---------- *)
+From Pocket Require Import HexProofs.
+Theorem addr_parse_total input : addr_parse input <> Panic /\ addr_parse input <> OutOfFuel.
+Proof.
+  unfold addr_parse. destruct (split_colon input) as [kb r1]. destruct (parse_u16 kb); [|split; discriminate].
+  destruct r1 as [r1|]; [|split; discriminate]. destruct (split_colon r1) as [ab r2].
+  pose proof (read_hex_total ab 32) as [A B].
+  destruct (read_hex ab 32); cbn [bind]; try (split; discriminate); try contradiction.
+  destruct r2; split; discriminate.
+Qed.
